@@ -251,7 +251,7 @@ def build_variant(v):
         res[v] = native(v, "fuzz", ["codec_fuzz.c"], objs)
     elif v == "content_fuzz":
         objs = compile_objects("fuzz", snapraid_sources())
-        res[v] = native(v, "fuzz", ["content_fuzz.c"], objs)
+        res[v] = native(v, "fuzz", ["content_fuzz.c"], objs, libs=("-lblkid", "-lm", "-Wl,--wrap=exit", "-Wl,--wrap=os_abort"))
     else:
         raise SystemExit("unknown variant " + v)
     return res
